@@ -25,6 +25,64 @@ import NutsProofs.Props.C02
 namespace Nuts.Compose.Cred.Props
 open Nuts Nuts.Compose.Cred
 
+/-! ## (1) the maps are exact where both models can be compared -/
+
+/-- C01's revocation-store input read from C11's world IS C11's `credRevoked` of the same credential -/
+theorem revocation_store_input_exact (g : Glue) (E : C11.Env) (i : Bool) (w : C11.World) (base : C01.Env) (c : C01.Cred) (id : String)
+    (hid : c.id = some id) : (revEnv g E i w base).revoked id = (w.get i).credRevoked (cred11 g c) := by
+  simp [revEnv, C11.Node.credRevoked, cred11, hid]
+
+/-- the status-list input is EXACT on a credential with one (well-formed) status entry: C01's status verdict over `revEnv` says
+    revoked iff C11's own `statusVerify` says revoked — for every world, entry type, purpose, index, list record or fetch failure.
+    (More entries: C11 threads the world through the entries — a download changes the cache —, C01 reads one environment; the
+    composition theorems below therefore speak, like C11's own, about the first relevant entry.) -/
+theorem single_entry_verdicts_agree (g : Glue) (E : C11.Env) (i : Bool) (w : C11.World) (base : C01.Env) (c : C01.Cred)
+    (s : C01.Status) (hc : c.statuses = some [s]) (hv : s.entryValid = true) :
+    C01.statusVerdict (revEnv g E i w base) c = .revoked ↔ (C11.statusVerify E i w (cred11 g c)).1 = .revoked := by
+  simp only [C01.statusVerdict, hc, C11.statusVerify, cred11, Option.map_some, List.map_cons, List.map_nil]
+  unfold C01.statusVerdictL C11.verifyStatuses
+  by_cases hty : s.typ = C01.statusListEntryType
+  · by_cases hpu : s.purpose = "revocation"
+    · have hrel : (status11 g s).relevant = true := relevant_status11 g s hty hpu
+      simp only [hty, hv, hpu, hrel, bne_self_eq_false, Bool.false_eq_true, if_false, Bool.not_true]
+      show (match (statusRecord E i w (g.urlOf s.listCred)).map slOf with
+            | none => C01.StatusVerdict.softErr
+            | some sl => _) = _ ↔ _
+      unfold statusRecord
+      simp only
+      have hl : (status11 g s).list = g.urlOf s.listCred := rfl
+      rw [hl]
+      generalize (if C11.needsFetch E w.now (w.get i) (g.urlOf s.listCred) then C11.download E w (g.urlOf s.listCred) else (C11.Fetch.fail, w)) = fw
+      unfold C11.checkStatus
+      rw [hl]
+      cases hs : C11.statusList E fw.2.now (fw.2.get i) (g.urlOf s.listCred) fw.1 with
+      | ok pr =>
+        obtain ⟨rec, n'⟩ := pr
+        simp only [Option.map_some, slOf]
+        have hp11 : (status11 g s).purpose = "revocation" := hpu
+        have hi11 : (status11 g s).idx = s.index.map Int.ofNat := rfl
+        rw [hp11, hi11]
+        by_cases hp : rec.purpose = "revocation"
+        · simp only [hp, bne_self_eq_false, Bool.false_eq_true, if_false]
+          cases hidx : s.index with
+          | none => simp
+          | some k =>
+            simp only [Option.map_some, Int.ofNat_eq_natCast]
+            cases hb : rec.bits.bit (k : Int) with
+            | ok b => cases b <;> simp [C01.statusVerdictL, C11.verifyStatuses]
+            | err e => simp
+            | panic e => simp
+        · simp [hp]
+      | err e => simp
+      | panic e => simp
+    · have hrel : (status11 g s).relevant = false := by
+        simp [C11.StatusEntry.relevant, status11, hpu]
+      simp [hty, hv, hpu, hrel, C01.statusVerdictL, C11.verifyStatuses]
+  · have hrel : (status11 g s).relevant = false := by
+      simp [C11.StatusEntry.relevant, status11]
+      intro h; exact absurd h hty
+    simp [hty, hrel, C01.statusVerdictL, C11.verifyStatuses]
+
 /-! ## (2) a revoked credential never verifies -/
 
 /-- network route: once node `i` ACCEPTED a revocation whose subject is the credential's id (C11 `registerRevocation`),
@@ -189,6 +247,14 @@ example : RevokedIn exGlue C11.Props.exEnv C11.Props.exK C11.Props.exWorld true 
     · cases h
   exact .refreshed _ [] C11.Props.exWorld_cache "https://n0" "did:a" 1 0 hpin [{ id := "x", typ := "Other" }] [] _ rfl (by decide) rfl rfl rfl
     (by decide) rfl
+
+/-- both verdicts on C11's example: revoked on node 0 after its history, not revoked in the initial world (list not fetchable) -/
+example : C01.statusVerdict (revEnv exGlue C11.Props.exEnv false (C11.run C11.Props.exEnv C11.Props.exK C11.Props.exWorld C11.Props.exHistory) C01.Props.exE)
+    { exCredSL with statuses := some [{ id := "s", typ := C01.statusListEntryType, purpose := "revocation", index := some 0,
+                                         listCred := "https://n0/statuslist/did:a/1" }] } = .revoked := by decide
+example : C01.statusVerdict (revEnv exGlue C11.Props.exEnv false C11.Props.exWorld C01.Props.exE)
+    { exCredSL with statuses := some [{ id := "s", typ := C01.statusListEntryType, purpose := "revocation", index := some 0,
+                                         listCred := "https://n0/statuslist/did:a/1" }] } = .softErr := by decide
 
 /-! ## (3) a token is issued only for verified, matching, unrevoked presentations -/
 
